@@ -10,9 +10,11 @@ def r(rng, lo, hi, nd=6):
 
 
 def custom_table(rng, n=None):
-    """3..40 strictly ascending Mach nodes starting at 0, CD in 0.05..1.0."""
+    """3..40 strictly ascending Mach nodes (first node at Mach 0 or not), CD in 0.05..1.0."""
     n = n or rng.choice([3, 4, 5, 8, 12, 20, 40])
-    machs, m = [0.0], 0.0
+    # radar-style tables need not start at Mach 0
+    m = rng.choice([0.0, 0.0, round(rng.uniform(0.2, 0.9), 3)])
+    machs = [m]
     for _ in range(n - 1):
         m += rng.choice([rng.uniform(0.01, 0.05), rng.uniform(0.05, 0.3), rng.uniform(0.3, 0.8)])
         machs.append(round(m, 5))
